@@ -67,9 +67,11 @@ def main():
                 p = os.path.join(wt, df)
                 if os.path.exists(p):
                     os.remove(p)
+        import re as _re1
+        demo_cmd = _re1.split(r"\s+\((?=[a-z])", meta["demo_cmd"])[0].strip()  # drop trailing prose in parentheses
         if not check_only:
             put_demo()
-            rc, out = sh(meta["demo_cmd"], cwd=wt, env=env, timeout=2400)
+            rc, out = sh(demo_cmd, cwd=wt, env=env, timeout=2400)
             res["demo_fails_with_patch"] = rc != 0
             res["demo_out_with"] = out[-800:]
             rm_demo()
@@ -142,7 +144,7 @@ def main():
             else:
                 rc, out = sh("git apply -R %s" % os.path.join(cand, "patch.diff"), cwd=wt)
             put_demo()
-            rc, out = sh(meta["demo_cmd"], cwd=wt, env=env, timeout=2400)
+            rc, out = sh(demo_cmd, cwd=wt, env=env, timeout=2400)
             res["demo_passes_without_patch"] = rc == 0
             if rc != 0:
                 res["demo_out_without"] = out[-800:]
